@@ -1182,8 +1182,8 @@ class CompositeEnvelope:
                 assert isinstance(s.envelope, Envelope)
                 s.envelope._set_measured()
 
-        self._containers[self.uid].update_all_indices()
         self._containers[self.uid].remove_empty_product_states()
+        self._containers[self.uid].update_all_indices()
         return outcomes
 
     def measure_POVM(
